@@ -703,4 +703,6 @@ def run(tier, seed):
         "rules whose shifts are not multiples of 4pi/32 (R = 3, 5, 6, non-commensurate, dense) are evaluated numerically only (bridged)",
         "user shift sets are drawn from lattice points for which TLC proves the sine matrix non-singular; random off-lattice user shifts are "
         "restricted to cond < 1e4; a singular system caused by the DEFAULT shifts is charged to the implementation",
-        "ordering / merging / folding of shifts is mechanism: disagreements are counted as model drift, not violations"])
+        "ordering / merging / folding of shifts is mechanism: disagreements are counted as model drift, not violations",
+        "the generator table behind the exact derivatives is model-checked against the gate table at M = 4 (GenSelf.tla); the R = 4 replays run at M = 5 "
+        "with the same table definitions"])
